@@ -25,10 +25,10 @@ def World.contactsOf (w : World) (u : Uid) : List (String × Bool × Bool) :=
     let acc := match r.subs.find? (fun s => s.user = u ∧ !s.deleted) with
       | some s =>
         let name := if isP2PKey r.name then ((r.subs.find? (·.user ≠ u)).map (·.user)).getD r.name else r.name
-        psSet acc name (false, isPresencer (s.want &&& s.given))
+        psSet acc name (false, isPresencer (s.want &&& s.given) && isJoiner (s.want &&& s.given))
       | none => acc
     match r.csubs.find? (fun s => s.user = u ∧ !s.deleted) with
-      | some s => psSet acc ("chn:" ++ r.name) (false, isPresencer (s.want &&& s.given))
+      | some s => psSet acc ("chn:" ++ r.name) (false, isPresencer (s.want &&& s.given) && isJoiner (s.want &&& s.given))
       | none => acc) []
 
 /-- notifyOnOrSkip (pres.go:229-250): `none` = skipped; otherwise the `topic` field of the notification -/
@@ -41,10 +41,7 @@ def notifyOnOrSkip (topic what : String) (online : Bool) : Option String :=
 
 /-- presUsersOfInterest (pres.go:254-283): the user's status goes to every contact - to a p2p partner's `me`, to a group topic.
 `+dis` marks the contacts offline on this side. -/
-def Ctx.presUsersOfInterest (c : Ctx) (t : Topic) (what : String) : Ctx × Topic :=
-  let parts := what.splitOn "+"
-  let wantReply := parts.headD "" = "on"
-  let goOffline := parts.getD 1 "" = "dis"
+def Ctx.presUsersOfInterestCore (c : Ctx) (t : Topic) (what : String) (wantReply goOffline : Bool) : Ctx × Topic :=
   let c := t.perSubs.foldl (fun c (topic, online, _) =>
     match notifyOnOrSkip topic what online with
     | none => c
@@ -53,15 +50,17 @@ def Ctx.presUsersOfInterest (c : Ctx) (t : Topic) (what : String) : Ctx × Topic
       if (notifyOnOrSkip n what o).isSome ∧ o then (n, false, e) else (n, o, e)) } else t
   (c, t)
 
+/-- `what` is `on`, `off`, `upd`, `ua`, possibly with a `+dis` command -/
+def Ctx.presUsersOfInterest (c : Ctx) (t : Topic) (what : String) : Ctx × Topic :=
+  let parts := what.splitOn "+"
+  c.presUsersOfInterestCore t what (parts.headD "" = "on") (parts.getD 1 "" = "dis")
+
 /-! ### procPresReq (pres.go:97-226) -/
 
 /-- the handshake at the topic which receives a status notification from `from_`. Returns the topic (a `me` topic updates its
 contact table), what is to be forwarded to the sessions (`""` = nothing) and the reply owed to the sender, if any. -/
-def procPresReq (t : Topic) (from_ : String) (what0 : String) (wantReply : Bool) : Topic × String × Option PresMsg :=
+def procPresReqCore (t : Topic) (from_ : String) (what cmd0 : String) (wantReply : Bool) : Topic × String × Option PresMsg :=
   if t.inactive then (t, "", none) else
-  let parts := what0.splitOn "+"
-  let what := parts.headD ""
-  let cmd0 := parts.getD 1 ""
   -- (what forwarded, online : Option Bool, reqReply, cmd)
   let cls : Option (String × Option Bool × Bool × String) :=
     if what = "on" then some ("on", some true, false, cmd0)
@@ -100,6 +99,11 @@ def procPresReq (t : Topic) (from_ : String) (what0 : String) (wantReply : Bool)
     let reply : Option PresMsg :=
       if (onlineUpdate ∨ reqReply) ∧ wantReply then some { what := replyAs, src := t.name, wantReply := reqReply } else none
     (t, fwd, reply)
+
+/-- the notification's `what` is split at `+` into the status and the command -/
+def procPresReq (t : Topic) (from_ : String) (what0 : String) (wantReply : Bool) : Topic × String × Option PresMsg :=
+  let parts := what0.splitOn "+"
+  procPresReqCore t from_ (parts.headD "") (parts.getD 1 "") wantReply
 
 /-! ### delivery on `me` -/
 
@@ -202,6 +206,8 @@ def Ctx.opSubMe (c : Ctx) (a : Actor) : Ctx :=
         let (c, ok) := if needCreate then c.call "TopicShare" (effCreateMeSub (newSubRow a.uid want given none)) else (c, true)
         if !ok then (c.emit a.sid (ctrl 500 tn), none) else
         let t := t.setPud a.uid { want := want, given := given }
+        -- notifySubChange on `me`: a subscription which comes with presence is announced ("on+en") to the contacts known so far
+        let (c, t) := if isPresencer (want &&& given) then c.presUsersOfInterest t "on+en" else (c, t)
         (c, some (t, some (want, given)))
     match r with
     | (c, none) => c
